@@ -134,7 +134,22 @@ impl StatusState {
     with u.mod("service_main", uses="use crate::service_main::service_state::ServiceState;\nuse std::collections::HashMap;", auto_uses=sm):
         with u.mod("service_state", uses="use std::collections::HashMap;"):
             u.take(ss, "ServiceState", "struct", keep_derive=("Default",))
-        u.take_fn(sm, "write_state_event", external_body=True, ret="")   # proved in unit `health`; no effect on status / StatusState
+        # write_state_event: proved in unit `health` (emits on a change of the value stored under the key, then once per 120 repetitions);
+        # no effect on status / StatusState. Here: the throttle slot (key) must be the one of the notification's TOPIC - two topics
+        # sharing one slot see each other's values as changes and are emitted every time (the throttle clause of C20).
+        u.raw("""pub enum Topic { ReadStatusFile, FileVersion }
+pub open spec fn topic_key(t: Topic) -> Seq<char> {
+    match t { Topic::ReadStatusFile => constants::STATE_KEY_READ_PROXY_AGENT_STATUS_FILE@, Topic::FileVersion => constants::STATE_KEY_FILE_VERSION@ }
+}
+pub proof fn lemma_topics_have_slots_of_their_own()
+    ensures topic_key(Topic::ReadStatusFile) != topic_key(Topic::FileVersion),  // @C20.write_state_event.topics_have_slots_of_their_own
+{
+    reveal_strlit("ReadProxyAgentStatusFile"); reveal_strlit("FileVersion");
+    assert(constants::STATE_KEY_READ_PROXY_AGENT_STATUS_FILE@.len() != constants::STATE_KEY_FILE_VERSION@.len());
+}""")
+        u.take_fn(sm, "write_state_event", external_body=True, ret="", ghost="Ghost(topic): Ghost<Topic>", contract="""
+    requires state_key@ == topic_key(topic),  // @C20.write_state_event.slot_is_the_one_of_this_notifications_topic
+""")
         u.take_fn(sm, "get_top_proxy_connection_summary", external_body=True)
         u.take_fn(sm, "backup_proxyagent", external_body=True, ret="")
         u.take_fn(sm, "get_proxy_agent_file_version_in_extension", external_body=True)
@@ -160,7 +175,7 @@ impl StatusState {
 """)
 
         # (2) ONE observation: the aggregate status was written by the agent version this extension carries
-        u.take_fn(sm, "extension_substatus", ret="", pre_body=PRE, contract="""
+        u.take_fn(sm, "extension_substatus", ret="", pre_body=PRE, ghost_calls=[("write_state_event", "all", "Ghost(Topic::FileVersion)")], contract="""
     requires old(status_state_obj).inv(),
     ensures
         final(status_state_obj).inv(),  // @C20.extension_substatus.inv
@@ -178,6 +193,7 @@ impl StatusState {
             raise Undecided("report_proxy_agent_aggregate_status: the read of the aggregate status file was found %d times" % len(rd))
         rd_args = ", ".join(sm.s(a[0], a[1]) for a in rd[0]["args"])
         u.take_fn(sm, "report_proxy_agent_aggregate_status", ret="", pre_body=PRE, ghost="Tracked(w): Tracked<&mut World>",
+                  ghost_calls=[("write_state_event", "all", "Ghost(Topic::ReadStatusFile)")],
                   e9=[(tuple(rd[0]["span"]), None, "p: &PathBuf, Tracked(w): Tracked<&mut World>", rd_args + ", Tracked(w)",
                        "proxy_agent_shared::result::Result<GuestProxyAgentAggregateStatus>", """
     ensures final(w).agg_read == (match r { Ok(v) => Some(v.proxyAgentStatus.version@), Err(_) => None::<Seq<char>> }),""",
